@@ -13,43 +13,43 @@ COMMON_NOTE = ("Trusted: CPython executing the real function objects on the symb
 # id -> (category, technique, text, design_ref)
 CHECKS = {
     "C01": ("other", "contract-based deductive verification of the real functions (VCs by symbolic execution of the code objects, z3/cvc5) + bounded list-of-rows stand-in",
-            "Proved for every row-length vector: the prefix-sum geometry built by RaggedShape.__init__, size, ravel/unravel_multi_index, index_array (four inductions), the constructor's size check, len/shape/lengths/size/ravel/astype, to_numpy_array, from_tuple_shape. Bounded (exhaustive inside stated bounds, never counted as proved): iteration/tolist, dtype matrix, save/load round trip (np.savez/np.load assumed).", "0, 11/C01"),
+            "Proved for every row-length vector: the prefix-sum geometry built by RaggedShape.__init__, size, ravel/unravel_multi_index, index_array (four inductions), the constructor's size check, len/shape/lengths/size/ravel/astype, to_numpy_array, from_tuple_shape. Bounded (exhaustive inside stated bounds, never counted as proved): iteration/tolist, dtype matrix, save/load round trip (np.savez/np.load assumed).", "0, 20, 11/C01"),
     "C02": ("other", "contract-based deductive verification (incl. an inductive scan invariant for build_indices) + bounded Python-list-indexing stand-in",
-            "Proved for all inputs: column-slice arithmetic for all 8 None/int kinds with symbolic bounds, steps and column step; integer column / element refusal; row selection on codes for int / slice / index array / mask; build_indices (scatter-then-scan, unbounded rows); get_shape / get_flat_indices preconditions; __getitem__ and _get_row_subset dispatch; and the composition mechanised for ra[rowslice, colslice]: the real chain __getitem__ -> view_rows -> col_slice -> ravel -> gather executed on a symbolic array (only get_flat_indices replaced by its proved contract) gives, cell by cell, Python list indexing - for rows selected by a slice (bounds / steps symbolic), an integer index array or a boolean mask, columns by a slice (bounds symbolic, step in {1,2,-1,-2,-3}) or none, and for the integer forms ra[i, j], ra[i], ra[i, a:b:s], ra[rows, j]. Combinations outside these are bounded.", "0, 11/C02"),
+            "Proved for all inputs: column-slice arithmetic for all 8 None/int kinds with symbolic bounds, steps and column step; integer column / element refusal; row selection on codes for int / slice / index array / mask; build_indices (scatter-then-scan, unbounded rows); get_shape / get_flat_indices preconditions; __getitem__ and _get_row_subset dispatch; and the composition mechanised for ra[rowslice, colslice]: the real chain __getitem__ -> view_rows -> col_slice -> ravel -> gather executed on a symbolic array (only get_flat_indices replaced by its proved contract) gives, cell by cell, Python list indexing - for rows selected by a slice (bounds / steps symbolic), an integer index array or a boolean mask, columns by a slice (bounds symbolic, step in {1,2,-1,-2,-3}) or none, and for the integer forms ra[i, j], ra[i], ra[i, a:b:s], ra[rows, j]. Combinations outside these are bounded.", "0, 20, 11/C02"),
     "C03": ("other", "contract-based deductive verification (address arithmetic shared with reads, scatter frame, XOR-scan broadcast) + bounded list-assignment stand-in",
-            "Proved: everything of C02's address computation, _set_data_range (addressed cells get their values, every other cell unchanged, no other buffer written; index array / mask / slice), __setitem__ dispatch per value kind incl. refusal of mismatching ragged values, _raw_broadcast (column-vector values) with its wrappers; and the composition mechanised for ra[rowslice, colslice] = scalar: exactly the cells list indexing selects get the value, every other cell keeps its value (frame), with only get_flat_indices replaced by its proved contract (same selector kinds as for reads, incl. ra[i, j] = v, ra[i] = v, ra[rows, j] = v). Non-scalar values end to end are bounded (their broadcasting is proved in __setitem__ / _raw_broadcast).", "0, 11/C03"),
+            "Proved: everything of C02's address computation, _set_data_range (addressed cells get their values, every other cell unchanged, no other buffer written; index array / mask / slice), __setitem__ dispatch per value kind incl. refusal of mismatching ragged values, _raw_broadcast (column-vector values) with its wrappers; and the composition mechanised for ra[rowslice, colslice] = scalar: exactly the cells list indexing selects get the value, every other cell keeps its value (frame), with only get_flat_indices replaced by its proved contract (same selector kinds as for reads, incl. ra[i, j] = v, ra[i] = v, ra[rows, j] = v). Non-scalar values end to end are bounded (their broadcasting is proved in __setitem__ / _raw_broadcast).", "0, 20, 11/C03"),
     "C04": ("other", "contract-based deductive verification with the ufunc as an uninterpreted function + bounded numpy-per-row stand-in",
-            "Proved for every ufunc at once: operand classification, operand order, shape guard (refusal iff row lengths differ), result assembly, dtype handed to the column broadcast, operands not written; _raw_broadcast proved. numpy's result dtype table and the dtype matrix are bounded.", "0, 11/C04"),
+            "Proved for every ufunc at once: operand classification, operand order, shape guard (refusal iff row lengths differ), result assembly, dtype handed to the column broadcast, operands not written; _raw_broadcast proved. numpy's result dtype table and the dtype matrix are bounded.", "0, 20, 11/C04"),
     "C05": ("other", "contract of _reduce against the assumed reduceat contract + wrapper dispatch + bounded numpy-per-row stand-in",
-            "Proved for all row-length vectors: _reduce (trailing-empty-row trimming, reduceat index bounds, identity for empty rows, keepdims, axis=None) for representatives add / maximum / logical_and with the fold uninterpreted; the reduction wrapper and named reductions' dispatch; argmax / argmin (_arg_extremum: first column equal to the row extremum, 0 for rows without one; np.unique and nonzero contracts). mean and the dtype matrix are bounded.", "0, 11/C05"),
+            "Proved for all row-length vectors: _reduce (trailing-empty-row trimming, reduceat index bounds, identity for empty rows, keepdims, axis=None) for representatives add / maximum / logical_and with the fold uninterpreted; the reduction wrapper and named reductions' dispatch; argmax / argmin (_arg_extremum: first column equal to the row extremum, 0 for rows without one; np.unique and nonzero contracts). mean and the dtype matrix are bounded.", "0, 20, 11/C05"),
     "C06": ("other", "contracts over the abstract rows for view receivers + materialisation frame + bounded derived-vs-fresh comparison",
-            "Proved: row subset of views, column-step compounding, integer column on strided views, materialisation (rows preserved, fresh buffer, source not written), lazy __getitem__ dispatch; the mechanised compositions of C02 / C03 (a 2-D slice selection read back cell by cell, and written through, equals list indexing), also for receivers that are themselves lazy row or column selections (column steps compound). Representation independence under every probe (a newly derived array vs a fresh one) is bounded.", "0, 11/C06"),
+            "Proved: row subset of views, column-step compounding, integer column on strided views, materialisation (rows preserved, fresh buffer, source not written), lazy __getitem__ dispatch; the mechanised compositions of C02 / C03 (a 2-D slice selection read back cell by cell, and written through, equals list indexing), also for receivers that are themselves lazy row or column selections (column steps compound). Representation independence under every probe (a newly derived array vs a fresh one) is bounded.", "0, 20, 11/C06"),
     "C07": ("other", "contracts (prefix-sum telescoping, shifted-prefix-sum lemma) + bounded numpy-per-row stand-in",
-            "Proved: cumsum and add/subtract/xor accumulate restart at every row (integer data as mathematical integers / 64-bit words), diff plumbing (row r keeps max(L-n,0) differences of its own cells), index_array for sort. sort, unique, diff values end to end are bounded. One known finding (float accumulate).", "0, 11/C07"),
+            "Proved: cumsum and add/subtract/xor accumulate restart at every row (integer data as mathematical integers / 64-bit words), diff plumbing (row r keeps max(L-n,0) differences of its own cells), index_array for sort. sort, unique, diff values end to end are bounded. One known finding (float accumulate).", "0, 20, 11/C07"),
     "C08": ("other", "contracts on structural functions + bounded stand-in",
-            "Proved: concatenate(axis=0) for 2 and 3 operands, zeros/ones/empty_like, where, nonzero, ragged_slice window arithmetic, unravel_multi_index, _raw_broadcast (mask broadcast), subset (row r keeps exactly its True-masked cells in order; fold-of-booleans = rank difference and prefix-sum-of-counts lemmas). concatenate(axis=1) (a Python loop over rows) and the padded matrix are bounded.", "0, 11/C08"),
+            "Proved: concatenate(axis=0) for 2 and 3 operands, zeros/ones/empty_like, where, nonzero, ragged_slice window arithmetic, unravel_multi_index, _raw_broadcast (mask broadcast), subset (row r keeps exactly its True-masked cells in order; fold-of-booleans = rank difference and prefix-sum-of-counts lemmas). concatenate(axis=1) (a Python loop over rows) and the padded matrix are bounded.", "0, 20, 11/C08"),
     "C09": ("other", "contracts (col_counts by three inductions, dtype dispatch) + bounded stand-in with dtype extremes",
-            "Proved: col_counts[j] = number of rows longer than j, for all row-length vectors; sum(axis=0) accumulator / dtype / index dispatch; the column-sum VALUES of integer arrays (result[k] = sum of the k-th cells of the rows that have one, two inductions over the add.at accumulation, integers mathematical); get_column_values. Float / bool column sums, mean(axis=0) are bounded.", "0, 11/C09"),
+            "Proved: col_counts[j] = number of rows longer than j, for all row-length vectors; sum(axis=0) accumulator / dtype / index dispatch; the column-sum VALUES of integer arrays (result[k] = sum of the k-th cells of the rows that have one, two inductions over the add.at accumulation, integers mathematical); get_column_values. Float / bool column sums, mean(axis=0) are bounded.", "0, 20, 11/C09"),
     "C10": ("other", "two-state frame contracts on read-only operations + bounded differential histories",
-            "Proved: 13 read-only operations on fresh receivers and 5 on lazily selected ones write no pre-existing buffer and preserve the rows; the buffer-dependence obligation on lazily selected receivers is refuted and is the recorded known finding. The history relation itself is bounded.", "0, 11/C10"),
+            "Proved: 13 read-only operations on fresh receivers and 5 on lazily selected ones write no pre-existing buffer and preserve the rows; the buffer-dependence obligation on lazily selected receivers is refuted and is the recorded known finding. The history relation itself is bounded.", "0, 20, 11/C10"),
     "C11": ("other", "contracts around the bucket structure + bounded Python-dict stand-in",
-            "Proved: hash is a bucket index for every key sign, _get_indices against its callees' contracts (refusal iff a key is absent; the offsets locate the keys), scalar-valued lookup/refusal, assignment order, contains scatter. the constructor establishes the bucket invariant (every cell lies in the bucket of its key's hash, keys and values permuted alike, nothing lost; five inductions over the sort / unique-counts / prefix-sum chain). Histories against a dict are bounded. One known finding (8-bit key dtype with a wider modulus).", "0, 11/C11"),
+            "Proved: hash is a bucket index for every key sign, _get_indices against its callees' contracts (refusal iff a key is absent; the offsets locate the keys), scalar-valued lookup/refusal, assignment order, contains scatter. the constructor establishes the bucket invariant (every cell lies in the bucket of its key's hash, keys and values permuted alike, nothing lost; five inductions over the sort / unique-counts / prefix-sum chain). Histories against a dict are bounded. One known finding (8-bit key dtype with a wider modulus).", "0, 20, 11/C11"),
     "C12": ("other", "contract of Counter.count's state update + bounded collections.Counter stand-in",
-            "Proved: which samples are looked up and values' = values + hits per flat position in all four value states (bincount contract), ravel_multi_index, hash. the constructor's bucket invariant (HashTable.__init__). Totals end-to-end against collections.Counter are bounded.", "0, 11/C12"),
+            "Proved: which samples are looked up and values' = values + hits per flat position in all four value states (bincount contract), ravel_multi_index, hash. the constructor's bucket invariant (HashTable.__init__). Totals end-to-end against collections.Counter are bounded.", "0, 20, 11/C12"),
     "C13": ("proof", "contract-based deductive verification in QF_BV + linear integer arithmetic of the real pack / unpack / __getitem__ / sliding_window",
-            "Every clause of the property is a discharged obligation generated from the real functions: pack (digit j of register q = element qk+j, zero beyond n, input untouched), unpack, integer and list indexing, sliding_window for every window size, for every b in {1,2,4,8,16,32} and every in-register offset (the property's own finite domain), with length, register index, positions and window size symbolic. A bounded cross-check runs in addition.", "0, 11/C13"),
+            "Every clause of the property is a discharged obligation generated from the real functions: pack (digit j of register q = element qk+j, zero beyond n, input untouched), unpack, integer and list indexing, sliding_window for every window size, for every b in {1,2,4,8,16,32} and every in-register offset (the property's own finite domain), with length, register index, positions and window size symbolic. A bounded cross-check runs in addition.", "0, 20, 11/C13"),
     "C14": ("other", "contracts (encoder canonical form, decoder XOR scan with invariant, constructor) + bounded numpy stand-in",
-            "Proved: from_array gives canonical boundaries with adjacent runs different and run values taken at run starts; to_array decodes bit for bit (scan invariant); constructor invariants; slice windows; the canonicalisation helpers remove_empty_intervals and join_runs (np.delete contract, chain induction); concatenate. The dtype matrix is bounded.", "0, 11/C14"),
+            "Proved: from_array gives canonical boundaries with adjacent runs different and run values taken at run starts; to_array decodes bit for bit (scan invariant); constructor invariants; slice windows; the canonicalisation helpers remove_empty_intervals and join_runs (np.delete contract, chain induction); concatenate. The dtype matrix is bounded.", "0, 20, 11/C14"),
     "C15": ("other", "contracts (slice window = CPython's clamped window, position lookup, sub-range extraction) + bounded numpy stand-in",
-            "Proved: _get_slice hands exactly CPython's clamped window to _start_to_end for all 8 None/int kinds; _start_to_end (scalar form) returns a canonical sub-array with the dense content; _step_subset for every non-zero step of symbolic size (factored floor division, proved callee contracts of remove_empty_intervals / join_runs); _get_position; __getitem__ / _getitem_bool dispatch for every index kind. the vector form of _start_to_end (the windows behind run-length masks and rla[starts:stops]) and RunLengthRaggedArray.ravel, with the ragged operands as contract-level stand-ins (SpecRagged, audited against the real RaggedArray). The end-to-end composition is bounded.", "0, 11/C15"),
+            "Proved: _get_slice hands exactly CPython's clamped window to _start_to_end for all 8 None/int kinds; _start_to_end (scalar form) returns a canonical sub-array with the dense content; _step_subset for every non-zero step of symbolic size (factored floor division, proved callee contracts of remove_empty_intervals / join_runs); _get_position; __getitem__ / _getitem_bool dispatch for every index kind. the vector form of _start_to_end (the windows behind run-length masks and rla[starts:stops]) and RunLengthRaggedArray.ravel, with the ragged operands as contract-level stand-ins (SpecRagged, audited against the real RaggedArray). The end-to-end composition is bounded.", "0, 20, 11/C15"),
     "C16": ("other", "contracts (operand order, boundaries kept, any/all/max) + bounded numpy stand-in",
-            "Proved: unary / scalar ufuncs keep boundaries and apply U in operand order, operands untouched; the binary merge _apply_binary_func for two arrays with unrelated boundaries (every position gets U(first, other) in operand order; argsort / searchsorted contracts, partition-point induction, proved callee contracts); any/all/max equal the dense ones; sum of integer arrays equals the sum of the decoded array (two inductions, products length * value handled by the solver's nonlinear arithmetic); concatenate. mean / histogram and float sums are bounded.", "0, 11/C16"),
+            "Proved: unary / scalar ufuncs keep boundaries and apply U in operand order, operands untouched; the binary merge _apply_binary_func for two arrays with unrelated boundaries (every position gets U(first, other) in operand order; argsort / searchsorted contracts, partition-point induction, proved callee contracts); any/all/max equal the dense ones; sum of integer arrays equals the sum of the decoded array (two inductions, products length * value handled by the solver's nonlinear arithmetic); concatenate. mean / histogram and float sums are bounded.", "0, 20, 11/C16"),
     "C17": ("other", "dispatch contracts (operand order, lock-step row selection) + bounded numpy stand-in",
-            "Proved: ufunc operand order for scalar / column on either side in both classes; row selection indexes boundaries and values with the same selector; reduction / structure plumbing (which ragged reduction is applied to which operand); RunLength2dArray.join_runs (lock-step filtering, real ragged machinery); with the ragged operands as contract-level stand-ins (SpecRagged, audited): RunLengthRaggedArray.ravel, the integer-column selection rr[:, j] (two inductions), RunLengthRaggedArray.remove_empty_intervals (row by row the 1-D helper's contract; lock-step of boundaries and values; six inductions), the row sums of integer arrays (sum(axis=-1) equals the sum of each decoded row), the window extraction behind rla[starts:stops]. Constructors, column ranges, column sums, concatenate are bounded.", "0, 11/C17"),
+            "Proved: ufunc operand order for scalar / column on either side in both classes; row selection indexes boundaries and values with the same selector; reduction / structure plumbing (which ragged reduction is applied to which operand); RunLength2dArray.join_runs (lock-step filtering, real ragged machinery); with the ragged operands as contract-level stand-ins (SpecRagged, audited): RunLengthRaggedArray.ravel, the integer-column selection rr[:, j] (two inductions), RunLengthRaggedArray.remove_empty_intervals (row by row the 1-D helper's contract; lock-step of boundaries and values; six inductions), the row sums of integer arrays (sum(axis=-1) equals the sum of each decoded row), the window extraction behind rla[starts:stops]. Constructors, column ranges, column sums, concatenate are bounded.", "0, 20, 11/C17"),
     "C18": ("other", "contracts on field-wise operations with abstract fields (k = 1..3 fields unrolled, all lengths and selectors symbolic) + bounded stand-in",
-            "Proved: equal-length check, __getitem__ for int / slice / index array / mask, concatenate of 2 and 3 objects, ==, astype by name, iteration, VarLenArray concatenate for 2 and 3 operands with all sizes symbolic. The number of fields / operands is concrete (unrolled), hence not claimed as proof.", "0, 11/C18"),
+            "Proved: equal-length check, __getitem__ for int / slice / index array / mask, concatenate of 2 and 3 objects, ==, astype by name, iteration, VarLenArray concatenate for 2 and 3 operands with all sizes symbolic. The number of fields / operands is concrete (unrolled), hence not claimed as proof.", "0, 20, 11/C18"),
     "C19": ("other", "re-generation of every geometry / indexing / reduction obligation under int32 (paired-word view model) + bounded differential run",
-            "Proved under both index widths with the same contracts: all C01/C02/C05/C06/C07/C08/C09 geometry, indexing, reduction, scan and structural families (1500+ obligations). The C01-C09 stand-ins are run under both widths and compared (bounded).", "0, 11/C19"),
+            "Proved under both index widths with the same contracts: all C01/C02/C05/C06/C07/C08/C09 geometry, indexing, reduction, scan and structural families (1500+ obligations). The C01-C09 stand-ins are run under both widths and compared (bounded).", "0, 20, 11/C19"),
 }
 
 
